@@ -230,7 +230,7 @@ class Inner:
 
 
 class Tracker(TR.MeasurementTrackingBackend):
-    def record_raw_measurement_data(self, circuit, measurement):
+    def record_raw_measurement_data(self, circuit, measurement, *more, **kw):  # tolerant of added optional arguments
         self.recorded = getattr(self, "recorded", 0) + 1
         self.seen = getattr(self, "seen", []) + [measurement]
 
